@@ -12,20 +12,20 @@ Definition C18_statement : Prop := forall s c, sig_wf s -> model_bind s c = spec
 (* it is false in three input classes found while proving it (each reproduced on rsass) *)
 Theorem C18_refuted_both : exists s c, sig_wf s /\ known_K1 s c = true /\ model_bind s c <> spec_bind s c.
 Proof.
-  exists (sig1 (Some "r")), (mkCall [VInt 1] [("a", VInt 2)] None None).
+  exists (sig1 (Some "r")), (mkCall [VInt 1] [("a", VInt 2)] None None None).
   split; [repeat constructor; intros [] | exact refuted_both].
 Qed.
 Print Assumptions C18_refuted_both.
 Theorem C18_refuted_splat_dup : exists s c, sig_wf s /\ known_K2 c = true /\ model_bind s c <> spec_bind s c.
 Proof.
-  exists (mkSig [("a", None); ("b", Some (DLit (VInt 0)))] None), (mkCall [] [("a", VInt 1)] None (Some [("a", VInt 5)])).
+  exists (mkSig [("a", None); ("b", Some (DLit (VInt 0)))] None), (mkCall [] [("a", VInt 1)] None (Some [("a", VInt 5)]) None).
   split; [|exact refuted_splat_dup].
   unfold sig_wf, names. cbn. repeat constructor; cbn; intuition discriminate.
 Qed.
 Print Assumptions C18_refuted_splat_dup.
 Theorem C18_refuted_only_named : exists s c, sig_wf s /\ known_K3 s c = true /\ model_bind s c <> spec_bind s c.
 Proof.
-  exists (sig1 (Some "r")), (mkCall [VInt 1] [("r", VInt 2)] None None).
+  exists (sig1 (Some "r")), (mkCall [VInt 1] [("r", VInt 2)] None None None).
   split; [repeat constructor; intros [] | exact refuted_only_named].
 Qed.
 Print Assumptions C18_refuted_only_named.
@@ -38,6 +38,12 @@ Theorem C18_bind : forall s c,
   model_bind s c = spec_bind s c.
 Proof. exact bind_main. Qed.
 Print Assumptions C18_bind.
+
+(* a keyword written twice, or written explicitly and also carried by a re-splatted argument list
+   (`@include m($b: 9, $args...)` where $args captured `$b: 2`), is a duplicate-argument error *)
+Theorem C18_resplat_duplicate : forall s c, dup_names (checked_named c) = true -> model_bind s c = BErr.
+Proof. exact resplat_duplicate. Qed.
+Print Assumptions C18_resplat_duplicate.
 
 (* positional arguments bind by position *)
 Theorem C18_positional : forall s pos, length pos = length (s_params s) ->
@@ -81,7 +87,7 @@ Print Assumptions C18_first_return.
 (* non-vacuity *)
 Example C18_nonvacuous :
   let s := mkSig [("a", None); ("b-c", Some (DRef "a")); ("d", Some (DLit (VInt 9)))] (Some "r") in
-  let c := mkCall [VInt 1] [("b_c", VInt 2); ("u", VInt 3)] None (Some [("d", VInt 7)]) in
+  let c := mkCall [VInt 1] [("b_c", VInt 2); ("u", VInt 3)] None (Some [("d", VInt 7)]) None in
   known_K1 s c = false /\ known_K2 c = false /\ known_K3 s c = false /\
   model_bind s c = BOk [("a", VInt 1); ("b_c", VInt 2); ("d", VInt 7)] (Some (RArgs [] [("u", VInt 3)])).
 Proof. vm_compute. repeat split. Qed.
